@@ -42,6 +42,22 @@ def textD (op : String) (a : List Nat) : Option String :=
       -- relational: is the observed output possible for some random stream the probabilities allow?
       | some (t, iw, dw, out) => if iw == 0 && dw == 0 then reject else if cwAllowed iw dw t out then "accept" else "refuse"
       | none => reject
+  | "wstask" => some <| match runP (do
+        let t ← pGText; let _seed ← pNat; let iw ← pNat; let dw ← pNat; let np ← pNat; let ns ← pNat; let out ← pNats
+        pure (t, iw, dw, np, ns, out)) a with
+      -- the corrupted input is the observed one (judged by cwAllowed); the labels are then determined: -1 (0 on the
+      -- wire) on prefix / suffix tokens, operations(input, target) in between.  The model works at the cluster
+      -- level: the corrupted clusters are the function model's clusters for a decision list that yields `out`.
+      | some (t, iw, dw, np, ns, out) =>
+        if iw == 0 && dw == 0 then reject
+        else if !cwAllowed iw dw t out then "refuse corrupted-text"
+        else match cwWitness (CwFlags.ofPermille iw dw) t true false out with
+          | none => "refuse corrupted-text"
+          | some inp =>
+            match wsOps inp t with
+            | some ops => ok ([np + inp.length + ns] ++ eNats (List.replicate np 0 ++ ops.map (fun o => o.toNat + 1) ++ List.replicate ns 0))
+            | none => err "task"
+      | none => reject
   | "wstable" => some <| match a with
       -- all White_Space code points in [lo, hi)
       | [lo, hi] => ok (eNats ((List.range (hi - lo)).filterMap (fun k => if isWsCp (lo + k) then some (lo + k) else none)))
